@@ -323,3 +323,42 @@ theorem tokenize_sound {s : Str} {ts : List Tok} (h : tokenize s = some ts) :
     render ts = s ∧ Clean ts := (tokenizeAux_sound s).1 ts h
 
 end FpgoVerif.C17
+
+namespace FpgoVerif.C17
+
+theorem tokenizeAux_name (acc n rest : Str) (h1 : '{' ∉ n) (h2 : '}' ∉ n) :
+    tokenizeAux (some acc) (n ++ '}' :: rest) = (tokenizeAux none rest).map (Tok.hole (acc ++ n) :: ·) := by
+  induction n generalizing acc with
+  | nil => simp [tokenizeAux]
+  | cons c n ih =>
+    have hc1 : c ≠ '{' := fun e => h1 (by simp [e])
+    have hc2 : c ≠ '}' := fun e => h2 (by simp [e])
+    have hn1 : '{' ∉ n := fun h => h1 (by simp [h])
+    have hn2 : '}' ∉ n := fun h => h2 (by simp [h])
+    simp only [List.cons_append, tokenizeAux, hc1, hc2, if_false]
+    rw [ih (acc ++ [c]) hn1 hn2]
+    simp
+
+/-- the tokenizer is complete: a well-formed template has exactly one reading -/
+theorem tokenize_complete (ts : List Tok) (hc : Clean ts) : tokenize (render ts) = some ts := by
+  unfold tokenize
+  induction ts with
+  | nil => rfl
+  | cons t ts ih =>
+    have hts : Clean ts := fun t' h => hc t' (by simp [h])
+    have ht := hc t (by simp)
+    rw [render_cons]
+    cases t with
+    | lit c =>
+      have hne : c ≠ '{' := by simpa [Tok.clean] using ht
+      simp [renderTok, tokenizeAux, hne, ih hts]
+    | hole n =>
+      simp only [Tok.clean, Bool.and_eq_true] at ht
+      have hn1 : '{' ∉ n := not_contains ht.1
+      have hn2 : '}' ∉ n := not_contains ht.2
+      have := tokenizeAux_name [] n (render ts) hn1 hn2
+      simp only [renderTok, placeholder, List.cons_append, List.append_assoc, List.nil_append, tokenizeAux, if_true]
+      rw [this, ih hts]
+      simp
+
+end FpgoVerif.C17
